@@ -39,10 +39,26 @@ def _returns_inside_loop(stmts):
                 for h in st.handlers:
                     if _returns_inside_loop(h.body):
                         return True
-                # a return inside try/finally cannot be turned into an assignment faithfully
-                if any(isinstance(s, ast.Return) for s in ast.walk(st)):
+                # a return inside a try statement is turned into an assignment only in the simple shape
+                # ``try: ...; return X  except E: ... raise/return`` (no finally, no else, nothing can fall through)
+                if any(isinstance(s, ast.Return) for s in ast.walk(st)) and not _simple_try_return(st):
                     return True
     return False
+
+
+def _simple_try_return(st):
+    if st.finalbody or st.orelse or not st.body:
+        return False
+    if any(isinstance(x, ast.Return) for s in st.body[:-1] for x in ast.walk(s)):
+        return False
+    if not isinstance(st.body[-1], ast.Return):
+        return False
+    for h in st.handlers:
+        if not _all_paths_return(h.body):
+            return False
+        if any(isinstance(x, (ast.Try, ast.For, ast.While)) and any(isinstance(y, ast.Return) for y in ast.walk(x)) for s in h.body for x in ast.walk(s)):
+            return False
+    return True
 
 
 def inlinable(fn):
@@ -88,6 +104,19 @@ def _eliminate_returns(stmts, ret_name):
             body = _eliminate_returns(list(st.body) + ([] if _all_paths_return(st.body) else copy.deepcopy(rest)), ret_name)
             orelse = _eliminate_returns(list(st.orelse) + ([] if _all_paths_return(st.orelse) else copy.deepcopy(rest)), ret_name)
             new = ast.copy_location(ast.If(test=st.test, body=body or [ast.Pass()], orelse=orelse), st)
+            out.append(new)
+            return out
+        if isinstance(st, ast.Try) and any(isinstance(s, ast.Return) for s in ast.walk(st)):
+            # only the shape accepted by _simple_try_return gets here: every path through it returns or raises
+            new = ast.copy_location(
+                ast.Try(
+                    body=_eliminate_returns(list(st.body), ret_name),
+                    handlers=[ast.copy_location(ast.ExceptHandler(type=h.type, name=h.name, body=_eliminate_returns(list(h.body), ret_name)), h) for h in st.handlers],
+                    orelse=[],
+                    finalbody=[],
+                ),
+                st,
+            )
             out.append(new)
             return out
         out.append(st)
